@@ -10,6 +10,10 @@ verus! {
 pub struct Name { pub id: Ghost<int> }
 /// any expression that wraps a user closure (Arc::new(f)): its value is irrelevant here — the claims are about the OTHER fields
 #[verifier::external_body] pub fn vx_wrap<T>() -> (r: T) { unimplemented!() }
+/// `Arc::new(x)` of a user closure / object handed to a setter: the stored value is a function of x alone (so "the first one wins" or
+/// "ignored" is visible), nothing else is known about it
+pub uninterp spec fn wrapped<A, T>(a: A) -> T;
+#[verifier::external_body] pub fn vx_wrap_of<A, T>(a: A) -> (r: T) ensures r == wrapped::<A, T>(a) { unimplemented!() }
 
 // ===== reconnect (C16) =====
 pub struct ReconnectPolicy { pub id: Ghost<int> }
@@ -59,7 +63,7 @@ impl ReconnectConfigBuilder {
             r.policy == self.policy && r.max_attempts == self.max_attempts && r.reconnect_predicate == self.reconnect_predicate,   // #keeps_every_other_setting [C16]
     //@body ReconnectConfigBuilder::retry_on_reconnect
     pub fn reconnect_predicate<F>(self, predicate: F) -> (r: Self)
-        ensures r.reconnect_predicate is Some,   // #installs_a_predicate [C16]
+        ensures r.reconnect_predicate == Some(wrapped::<F, ReconnectPredicate>(predicate)),   // #the_predicate_in_force_is_the_one_given_last [C16]
             r.policy == self.policy && r.max_attempts == self.max_attempts && r.retry_on_reconnect == self.retry_on_reconnect,   // #keeps_every_other_setting [C16]
     //@body ReconnectConfigBuilder::reconnect_predicate
     pub fn connection_errors_only(self) -> (r: Self)
@@ -120,7 +124,7 @@ impl RetryConfigBuilder {
             r.interval_fn == self.interval_fn && r.retry_predicate == self.retry_predicate && r.event_listeners == self.event_listeners && r.name == self.name && r.budget == self.budget,   // #keeps_every_other_setting [C05]
     //@body RetryConfigBuilder::max_attempts file=rtconfig
     pub fn max_attempts_fn<F>(self, f: F) -> (r: Self)
-        ensures r.max_attempts_source is Dynamic,   // #sets_per_request_attempts [C05]
+        ensures r.max_attempts_source == MaxAttemptsSource::Dynamic(wrapped(f)),   // #sets_per_request_attempts [C05]
             r.interval_fn == self.interval_fn && r.retry_predicate == self.retry_predicate && r.event_listeners == self.event_listeners && r.name == self.name && r.budget == self.budget,   // #keeps_every_other_setting [C05]
     //@body RetryConfigBuilder::max_attempts_fn file=rtconfig
     pub fn fixed_backoff(self, duration: Duration) -> (r: Self)
@@ -132,11 +136,11 @@ impl RetryConfigBuilder {
             r.max_attempts_source == self.max_attempts_source && r.retry_predicate == self.retry_predicate && r.event_listeners == self.event_listeners && r.name == self.name && r.budget == self.budget,   // #keeps_every_other_setting [C05]
     //@body RetryConfigBuilder::exponential_backoff file=rtconfig
     pub fn backoff<I>(self, interval_fn: I) -> (r: Self)
-        ensures r.interval_fn is Some,   // #sets_the_given_backoff [C05]
+        ensures r.interval_fn == Some(wrapped::<I, Arc<IntervalFn>>(interval_fn)),   // #sets_the_given_backoff [C05]
             r.max_attempts_source == self.max_attempts_source && r.retry_predicate == self.retry_predicate && r.event_listeners == self.event_listeners && r.name == self.name && r.budget == self.budget,   // #keeps_every_other_setting [C05]
     //@body RetryConfigBuilder::backoff file=rtconfig
     pub fn retry_on<F>(self, predicate: F) -> (r: Self)
-        ensures r.retry_predicate is Some,   // #installs_a_predicate [C05]
+        ensures r.retry_predicate == Some(wrapped::<F, RetryPredicate>(predicate)),   // #the_predicate_in_force_is_the_one_given_last [C05]
             r.max_attempts_source == self.max_attempts_source && r.interval_fn == self.interval_fn && r.event_listeners == self.event_listeners && r.name == self.name && r.budget == self.budget,   // #keeps_every_other_setting [C05]
     //@body RetryConfigBuilder::retry_on file=rtconfig
     pub fn name<S>(self, name: S) -> (r: Self)
